@@ -559,16 +559,21 @@ class Parser:
                 limit = self._limit_val()
             elif self.accept_kw('OFFSET'):
                 offset = self._limit_val()
+        lock = None
         while True:
             if self.is_kw('INTO'):
                 if into is not None:
                     self.fail('two INTO clauses')
                 into = self._into()
-            elif not self._locking():
-                break
+            else:
+                mode = self._locking()
+                if not mode:
+                    break
+                if mode == 'update' or lock is None:
+                    lock = mode
         if self.is_kw('UNION', 'INTERSECT', 'EXCEPT'):
             self.fail('set operations')
-        return A.Select(distinct, items, into, from_, where, group_by, having, order_by, limit, offset)
+        return A.Select(distinct, items, into, from_, where, group_by, having, order_by, limit, offset, lock)
 
     def _limit_val(self):
         t = self.t
@@ -612,8 +617,10 @@ class Parser:
                 return targets
 
     def _locking(self):
-        """FOR UPDATE | FOR SHARE | LOCK IN SHARE MODE [OF ..] [NOWAIT|SKIP LOCKED]: parsed and ignored."""
+        """FOR UPDATE | FOR SHARE | LOCK IN SHARE MODE [OF ..] [NOWAIT|SKIP LOCKED]: parsed; no effect on execution (recorded in
+        Select.lock).  Returns 'update' | 'share' | False."""
         if self.is_kw('FOR') and self.is_kw_at(1, 'UPDATE', 'SHARE'):
+            mode = 'update' if self.is_kw_at(1, 'UPDATE') else 'share'
             self.i += 2
             if self.accept_kw('OF'):
                 self.ident()
@@ -623,12 +630,12 @@ class Parser:
                 pass
             elif self.is_kw('SKIP'):
                 self.fail('SKIP LOCKED changes results')
-            return True
+            return mode
         if self.is_kw('LOCK') and self.is_kw_at(1, 'IN'):
             self.i += 2
             self.expect_kw('SHARE')
             self.expect_kw('MODE')
-            return True
+            return 'share'
         return False
 
     def parse_from(self):
